@@ -345,3 +345,84 @@ where
     println!("key: {}", finding_key::<F>(&sc, &vd));
     vd.failing()
 }
+
+/// Scenarios run with real threads on the real std lock (no controller, no
+/// observer): under Miri (many seeds) they must neither deadlock nor race,
+/// and their outcome must be serialisable.  All are clean on the reference
+/// tree (no cross-thread pair of an open finding class).
+pub fn free_scenarios() -> Vec<&'static str> {
+    vec![
+        "n=2 init=[(0, 1), (1, 0)] | disconnect(0,1) || disconnect(1,0)",
+        "n=2 init=[] | connect(0,1) || connect(1,0)",
+        "n=2 init=[(0, 1)] | connect(0,0) || q_deg(0); q_deg(1)",
+        "n=2 init=[(0, 1)] | disconnect(0,1) || q_conn(0,1); q_deg(1)",
+        "n=3 init=[(0, 1), (1, 2)] | connect(2,0) || walk(0)",
+        "n=3 init=[(0, 1), (1, 2)] | isolate(1) || walk(0); q_deg(1)",
+        "n=3 init=[(0, 1)] | connect(0,2) || connect(1,2) || q_deg(2)",
+        "n=2 init=[(0, 0)] | disconnect(0,0) || q_deg(0); q_conn(0,0)",
+        "n=3 init=[(0, 1), (2, 1)] | disconnect(0,1) || disconnect(2,1)",
+    ]
+}
+
+pub fn run_free<F: Flav>(sc: &Scenario, rep: &mut Report)
+where
+    F::Node: Send + Sync,
+{
+    let seq = sequential_outcomes::<F>(sc);
+    let w = setup_world::<F>(sc);
+    let mut results: Vec<Vec<CRes>> = vec![vec![]; sc.threads.len()];
+    std::thread::scope(|s| {
+        let mut hs = vec![];
+        for (t, calls) in sc.threads.iter().enumerate() {
+            let nodes: Vec<F::Node> = w.nodes.clone();
+            hs.push(s.spawn(move || {
+                let mut out = vec![];
+                for (i, c) in calls.iter().enumerate() {
+                    out.push(do_call::<F>(&nodes, *c, call_eid(t, i)));
+                    std::thread::yield_now();
+                }
+                out
+            }));
+        }
+        for (t, h) in hs.into_iter().enumerate() {
+            results[t] = h.join().unwrap_or_default();
+        }
+    });
+    rep.count("evaluations");
+    rep.count("free_runs");
+    let all: Vec<CRes> = results.iter().flatten().cloned().collect();
+    let mut o = {
+        let res: Vec<Vec<CRes>> = results
+            .into_iter()
+            .enumerate()
+            .map(|(t, r)| r.into_iter().enumerate().filter(|(i, _)| sc.threads[t][*i].mutating()).map(|(_, x)| x).collect())
+            .collect();
+        match crate::core::observe::<F>(&w) {
+            Ok(ob) => Outcome {
+                lists: ob.n.iter().map(|x| (x.out.iter().map(|(k, e)| (*k, e.id)).collect(), x.inn.iter().map(|(k, e)| (*k, e.id)).collect())).collect(),
+                results: res,
+                unobservable: None,
+            },
+            Err(p) => Outcome { lists: vec![], results: res, unobservable: Some(p) },
+        }
+    };
+    let mut msgs = vec![];
+    for r in &all {
+        if let CRes::Panic(m) = r {
+            msgs.push(format!("a call panicked: {}", m));
+        }
+    }
+    if let Some(u) = o.unobservable.take() {
+        msgs.push(format!("state unobservable (poisoned?): {}", u));
+    } else if msgs.is_empty() && !seq.contains(&o) {
+        msgs.push(format!("outcome {} is produced by no sequential order", o.text()));
+    }
+    if !msgs.is_empty() {
+        rep.violation(
+            "C17",
+            format!("{} ## free ## {}", F::NAME, sc.text()),
+            format!("[{}] real threads on `{}`: {}", F::NAME, sc.text(), msgs.join("; ")),
+            json!({"kind":"conc","prop":"C17","flavour":F::NAME,"scenario":sc.text()}),
+        );
+    }
+}
